@@ -14,6 +14,8 @@
    and above net/http's 2048-byte buffer, up to just below the client's 8 KiB limit) on every carrier.
    Writer carriers: the error is raised by the backend's BlobWriter (Write reached through PushBlob's
    closing PUT, through Write-then-Commit, through an overflowing Write's PATCH; Close; Commit).
+   HTTP wrappers come in two forms: made with a nil response and made from a response; and ORIGIN
+   cases put a non-conforming registry (plain http handler answering e.g. 404 + DENIED) at the far end.
    The thorough tier adds seeded-random trees (nested wrappers, several joined codes, random
    statuses 400..599, random messages and JSON details) over all 18 carriers.
 3. TLC validates every recorded case against OciErrorTrace.
@@ -57,6 +59,8 @@ def batch_key(e):
         return 'listitems'
     if e['carrier'] in WRITER:
         return 'writer'
+    if e.get('origin'):
+        return 'origin'
     if any(t['t'] == 'E' for n in nodes for t in n['msg']) or any(n['k'] == 'http' and not n['kids'] for n in nodes):
         return 'emptyish'
     if any(n['k'] == 'http' and n['status'] == 416 for n in nodes):
@@ -177,19 +181,28 @@ def run(ctx):
     # concrete carriers for the abstract kinds (quick: 1 of 15 body carriers + 1 of 3 HEAD carriers per tree, rotating)
     cases = []
     nb = nh = 0
-    nsweep = 0
+    nsweep = norigin = 0
     for g in gen:
         if g['kind'] == 'LIST':
             # listings whose backend yields items and THEN the error: all three listing carriers
             for c in ['Tags', 'Repositories', 'Referrers']:
-                cases.append(dict(id=len(cases), carrier=c, hops=HOPS, err=g['err'], nitems=g['nitems'], page=g['page']))
+                cases.append(dict(id=len(cases), carrier=c, hops=HOPS, err=g['err'], nitems=g['nitems'], page=g['page'], origin=False))
+            continue
+        if g['kind'] == 'ORIGIN':
+            # a non-conforming origin registry at the far end (status disagreeing with the table), body carriers
+            lst = BODY if not quick else [BODY[(3 * norigin + i) % 15] for i in range(3)]
+            norigin += 1
+            for c in lst:
+                cases.append(dict(id=len(cases), carrier=c, hops=HOPS, err=g['err'], nitems=0, page=0, origin=True))
             continue
         if g['kind'] == 'WRITER':
             # the backend's BlobWriter fails (Write via closing PUT / Commit / PATCH, Close, Commit)
             for c in WRITER:
-                cases.append(dict(id=len(cases), carrier=c, hops=HOPS, err=g['err'], nitems=0, page=0))
+                cases.append(dict(id=len(cases), carrier=c, hops=HOPS, err=g['err'], nitems=0, page=0, origin=False))
             continue
         if g['kind'] == 'HEAD':
+            if quick and not (g.get('sweep') or g.get('size')) and any(n['k'] == 'http' and n.get('resp') for n in walk(g['err'])):
+                continue    # quick: wrappers made from a response run on a body carrier only
             lst = HEAD if (not quick or g.get('sweep') or g.get('size')) else [HEAD[nh % 3]]
             nh += 1
         else:
@@ -202,7 +215,7 @@ def run(ctx):
                 nsweep += 1
             nb += 1
         for c in lst:
-            cases.append(dict(id=len(cases), carrier=c, hops=HOPS, err=g['err'], nitems=0, page=0))
+            cases.append(dict(id=len(cases), carrier=c, hops=HOPS, err=g['err'], nitems=0, page=0, origin=False))
     cd = ctx.sub('cases')
     cfile = os.path.join(cd, 'cases.jsonl')
     with open(cfile, 'w') as f:
